@@ -5,7 +5,7 @@
 # On success copies it to /verif/seeded/<ID>-<k>/ with meta.json extended by what was run.
 set -u
 ID=$1; K=$2
-WT=/tmp/wt/$ID; OUT=$WT/_out/$K
+WT=${WTROOT:-/tmp/wt}/$ID; OUT=$WT/_out/$K
 export GOFLAGS= GOPROXY=off GOSUMDB=off GOTOOLCHAIN=local
 unset GOWORK
 cd "$WT" || exit 2
@@ -25,7 +25,7 @@ for src,dst in m['demo_files'].items():
 PY
 DEMO_CMD=$(python3 -c "import json;print(json.load(open('$OUT/meta.json'))['demo_cmd'])")
 run_demo() { (cd "$WT" && bash -c "$DEMO_CMD") > "$OUT/.demo.log" 2>&1; }
-cleanup() { cd "$WT"; git checkout -q -- .; git status --short | grep -v -E '_out/|PROPERTY.json' | awk '{print $2}' | xargs -r rm -rf; }
+cleanup() { cd "$WT"; git checkout -q -- .; git status --short | grep -v -E '_out/|PROPERTY.json|ALREADY_USED.md' | awk '{print $2}' | xargs -r rm -rf; }
 run_demo; base=$?
 if [ $base -ne 0 ]; then log "FAIL: demo does not pass on the clean tree"; tail -5 "$OUT/.demo.log"; cleanup; exit 1; fi
 git apply "$OUT/patch.diff" || { log "FAIL: patch does not apply"; cleanup; exit 1; }
@@ -45,7 +45,7 @@ PY
 /verif/scripts/suite.sh "$WT" > "$OUT/.suite.log" 2>&1; suite=$?
 if [ $suite -ne 0 ]; then log "FAIL: pinned suite fails with the patch"; cat "$OUT/.suite.log" | head; cleanup; exit 1; fi
 cleanup
-D=/verif/seeded/$ID-$K
+D=/verif/seeded/$ID-${SEEDTAG:-}$K
 mkdir -p "$D"
 cp "$OUT"/patch.diff "$D"/
 for f in "$OUT"/*; do case "$(basename $f)" in patch.diff|meta.json) ;; *) [ -f "$f" ] && cp "$f" "$D"/;; esac; done
